@@ -595,16 +595,37 @@ func funcChanged(rel string, fd *ast.FuncDecl) bool {
 	if fd.Recv != nil && len(fd.Recv.List) > 0 {
 		key += recvName(fd.Recv.List[0].Type) + "."
 	}
-	// the recorded hashes are of the declaration printed WITHOUT its doc comment (funcHashes parses without comments)
-	tmp := *fd
-	tmp.Doc = nil
-	var buf bytes.Buffer
-	_ = printer.Fprint(&buf, token.NewFileSet(), &tmp)
-	h := sha256.Sum256(buf.Bytes())
-	return baseHash[key+fd.Name.Name] != hex.EncodeToString(h[:8])
+	// the recorded hashes are of the declaration as funcHashes prints it: parsed WITHOUT comments
+	nf, ok := noCommentFiles[rel]
+	if !ok {
+		nf, _ = parser.ParseFile(token.NewFileSet(), filepath.Join(*repo, rel), nil, 0)
+		noCommentFiles[rel] = nf
+	}
+	if nf == nil {
+		return false
+	}
+	for _, d := range nf.Decls {
+		x, ok := d.(*ast.FuncDecl)
+		if !ok || x.Name.Name != fd.Name.Name {
+			continue
+		}
+		r := ""
+		if x.Recv != nil && len(x.Recv.List) > 0 {
+			r = recvName(x.Recv.List[0].Type) + "."
+		}
+		if rel+":"+r != key {
+			continue
+		}
+		var buf bytes.Buffer
+		_ = printer.Fprint(&buf, token.NewFileSet(), x)
+		h := sha256.Sum256(buf.Bytes())
+		return baseHash[key+fd.Name.Name] != hex.EncodeToString(h[:8])
+	}
+	return false
 }
 
 var baseHash map[string]string
+var noCommentFiles = map[string]*ast.File{}
 
 // normaliseChanged: for a function that differs from the base, if-chains presented as switches
 func normaliseChanged(rel string, orig, fd *ast.FuncDecl) *ast.FuncDecl {
